@@ -72,3 +72,13 @@ def report(checkpoints):
             out["not_reached"].append(name)
     out["lines_executed"] = {f: len(v) for f, v in sorted(by_file.items())}
     return out
+
+
+def dump(path):
+    """all executed (file, line) pairs of this process -> JSON (tools/coverage.py merges them)"""
+    import json
+    by_file = {}
+    for f, ln in _hits:
+        by_file.setdefault(f, []).append(ln)
+    with open(path, "w") as fh:
+        json.dump({f: sorted(v) for f, v in by_file.items()}, fh)
